@@ -6,12 +6,20 @@ mod rng;
 mod c01;
 mod c02;
 mod c03;
+mod c04;
+mod c05;
+mod c06;
+mod c07;
+mod c08;
+mod c09;
 mod c10;
+mod c11;
 mod c12;
 mod c13;
 mod c14;
 mod c15;
 mod c16;
+mod c17;
 mod c18;
 mod c19;
 mod c20;
@@ -27,12 +35,20 @@ fn table(id: &str) -> Option<(GenFn, ExecFn)> {
         "C01" => Some((c01::gen, c01::exec)),
         "C02" => Some((c02::gen, c02::exec)),
         "C03" => Some((c03::gen, c03::exec)),
+        "C04" => Some((c04::gen, c04::exec)),
+        "C05" => Some((c05::gen, c05::exec)),
+        "C06" => Some((c06::gen, c06::exec)),
+        "C07" => Some((c07::gen, c07::exec)),
+        "C08" => Some((c08::gen, c08::exec)),
+        "C09" => Some((c09::gen, c09::exec)),
         "C10" => Some((c10::gen, c10::exec)),
+        "C11" => Some((c11::gen, c11::exec)),
         "C12" => Some((c12::gen, c12::exec)),
         "C13" => Some((c13::gen, c13::exec)),
         "C14" => Some((c14::gen, c14::exec)),
         "C15" => Some((c15::gen, c15::exec)),
         "C16" => Some((c16::gen, c16::exec)),
+        "C17" => Some((c17::gen, c17::exec)),
         "C18" => Some((c18::gen, c18::exec)),
         "C19" => Some((c19::gen, c19::exec)),
         "C20" => Some((c20::gen, c20::exec)),
